@@ -30,6 +30,27 @@ type c22MapBroker struct {
 	g1 map[string]func()   // fires before the next ReadStream with Limit != 0 made while the channel has a subscriber
 	g2 map[string]func()   // ... after it
 	node *Node
+	drop map[string]bool // fault: PUB/SUB deliveries of this channel to the node are lost (at-most-once broker)
+}
+
+// the node registers itself as event handler: deliveries pass through here
+type c22Lossy struct {
+	BrokerEventHandler
+	b *c22MapBroker
+}
+
+func (l *c22Lossy) HandlePublication(ch string, pub *Publication, sp StreamPosition, useDelta bool, prevPub *Publication) error {
+	l.b.mu.Lock()
+	lost := l.b.drop[ch]
+	l.b.mu.Unlock()
+	if lost {
+		return nil
+	}
+	return l.BrokerEventHandler.HandlePublication(ch, pub, sp, useDelta, prevPub)
+}
+
+func (b *c22MapBroker) RegisterEventHandler(h BrokerEventHandler) error {
+	return b.MemoryMapBroker.RegisterEventHandler(&c22Lossy{BrokerEventHandler: h, b: b})
 }
 
 func (b *c22MapBroker) take(m map[string]func(), ch string) func() {
@@ -95,7 +116,7 @@ func c22NewEnv(t *testing.T) *c22Env {
 	if err != nil {
 		t.Fatal(err)
 	}
-	e.mb = &c22MapBroker{MemoryMapBroker: mmb, g0: map[string]func(){}, g1: map[string]func(){}, g2: map[string]func(){}, node: node}
+	e.mb = &c22MapBroker{MemoryMapBroker: mmb, g0: map[string]func(){}, g1: map[string]func(){}, g2: map[string]func(){}, node: node, drop: map[string]bool{}}
 	node.SetMapBroker(e.mb)
 	node.OnConnect(func(client *Client) {
 		client.OnSubscribe(func(ev SubscribeEvent, cb SubscribeCallback) {
@@ -159,6 +180,7 @@ type c22Scn struct {
 	noWindows      bool
 	forceG1        []c22W // corpus: exactly these writer operations right before the transition's stream read
 	winClear       bool   // a clear happened inside a request window
+	nLost          int    // writer ops whose delivery to the node was lost while the subscription was live
 	falseRecovered bool
 	sawTrim, sawErr, sawPages, sawStream, sawRecover bool
 }
@@ -675,7 +697,17 @@ func (s *c22Scn) doEvW() {
 		_, ep := s.serverPos()
 		expectUnsub = s.epochIdx[ep] != s.clears
 	}
+	// ... or when an earlier delivery was lost: the next publication that arrives shows an offset gap
+	gapBefore := false
+	if live {
+		off, ep := s.serverPos()
+		gapBefore = s.epochIdx[ep] == s.clears && off < uint64(len(s.log))
+	}
+	nlog := len(s.log)
 	term := s.doW(w, false)
+	if gapBefore && len(s.log) > nlog {
+		expectUnsub = true
+	}
 	s.events = append(s.events, vApp("EvW", term))
 	if w.kind == "clear" && s.phase == "stream" {
 		s.touch()
@@ -710,6 +742,35 @@ func (s *c22Scn) doEvW() {
 		s.jev = append(s.jev, "  (server unsubscribed the client)")
 	}
 	s.obs = append(s.obs, vApp("BPushes", c22CoqPubs(got.pubs), vBool(got.unsub)))
+}
+
+// fault: a writer op whose PUB/SUB delivery never reaches the node (the broker is at-most-once)
+func (s *c22Scn) doEvLose() {
+	w := s.genW()
+	if w.kind == "clear" || w.kind == "expire-stream" {
+		w = c22W{"pub", s.r.Intn(c22K)}
+	}
+	s.e.mb.mu.Lock()
+	s.e.mb.drop[s.ch] = true
+	s.e.mb.mu.Unlock()
+	nlog := len(s.log)
+	term := s.doW(w, false)
+	s.e.mb.mu.Lock()
+	delete(s.e.mb.drop, s.ch)
+	s.e.mb.mu.Unlock()
+	s.events = append(s.events, vApp("EvLose", term))
+	s.obs = append(s.obs, "BNone")
+	if len(s.log) > nlog {
+		s.jev = append(s.jev, "  (its delivery to the node is LOST)")
+		if s.phase == "live" {
+			s.nLost++
+		}
+	}
+	if s.phase == "live" {
+		if got := s.drain(); len(got.pubs) > 0 || got.unsub {
+			s.bad = "push although the delivery was dropped"
+		}
+	}
 }
 
 func (s *c22Scn) doCheck() {
@@ -898,6 +959,8 @@ func TestVerifC22(t *testing.T) {
 					s.doDrop()
 				case s.phase == "live" && x < 20:
 					s.doCheck()
+				case s.phase == "live" && x < 27:
+					s.doEvLose()
 				default:
 					s.doEvW()
 				}
@@ -961,6 +1024,9 @@ func TestVerifC22(t *testing.T) {
 		}
 		if s.winClear {
 			class += "+clear-in-window"
+		}
+		if s.nLost > 0 {
+			class += "+lost-delivery"
 		}
 		if s.sawErr {
 			class += "+told"
